@@ -145,13 +145,18 @@ LiquidVolume(n, a) == DDiv(DDiv(DMul(n, a.M), a.rho), DInt(1000))
 Models == <<"HK", "HK-CY", "RY", "RY-CY">>
 Geos == <<"slit", "cylinder", "sphere">>
 Temps == <<DInt(70), DL(774, -1), DL(873, -1), DInt(195), DInt(273), DInt(300)>>
-\* adsorbents: Carbon from Horvath & Kawazoe 1983 (table audit of the library); two user dictionaries; the two
-\* oxide-ion sets are used by name and their numbers are read from the library as input data
+\* adsorbents: the three built-in sets are used BY NAME; the numbers below are this specification's own reference copy
+\* (Carbon: Horvath & Kawazoe 1983; oxide ion of aluminosilicates / aluminophosphates: Saito & Foley 1991, Cheng & Yang
+\* 1994: same polarizability and susceptibility, diameters 0.276 / 0.260 nm, surface densities 1.315e19 / 1.000e19 m^-2);
+\* the published slit equation is evaluated with THESE numbers, and the library's tables are audited against them.
+\* Two user dictionaries in addition.
 Adsorbents == [
    CarbonHK |-> [name |-> "Carbon(HK)", builtin |-> TRUE, known |-> TRUE,
                  d |-> DL(34, -2), alpha |-> DL(102, -5), chi |-> DL(135, -9), ns |-> DL(3845, 16)],
-   AlSi |-> [name |-> "AlSiOxideIon", builtin |-> TRUE, known |-> FALSE, d |-> DZero, alpha |-> DZero, chi |-> DZero, ns |-> DZero],
-   AlPh |-> [name |-> "AlPhOxideIon", builtin |-> TRUE, known |-> FALSE, d |-> DZero, alpha |-> DZero, chi |-> DZero, ns |-> DZero],
+   AlSi |-> [name |-> "AlSiOxideIon", builtin |-> TRUE, known |-> TRUE,
+             d |-> DL(276, -3), alpha |-> DL(25, -4), chi |-> DL(13, -9), ns |-> DL(1315, 16)],
+   AlPh |-> [name |-> "AlPhOxideIon", builtin |-> TRUE, known |-> TRUE,
+             d |-> DL(260, -3), alpha |-> DL(25, -4), chi |-> DL(13, -9), ns |-> DL(1000, 16)],
    userA |-> [name |-> "userA", builtin |-> FALSE, known |-> TRUE,
               d |-> DL(30, -2), alpha |-> DL(15, -4), chi |-> DL(10, -8), ns |-> DL(30, 18)],
    userB |-> [name |-> "userB", builtin |-> FALSE, known |-> TRUE,
@@ -203,6 +208,17 @@ Scenarios ==
 \* Histories through psd_microporous(adsorbate_model=None): the adsorbate parameters (incl. the liquid density at the
 \* isotherm's temperature) are looked up per call; the result of a call is a function of ITS isotherm only.
 \* Configurations: the same adsorbate at two temperatures, another adsorbate at one of them; every order of length 3.
+\* Representations in which the isotherm handed to psd_microporous is stored (the method reads relative pressure;
+\* absolute ones need a saturation pressure, i.e. T below the adsorbate's critical temperature - else the relative
+\* representation with the same temperature unit is used)
+ApiStorage == <<
+   [name |-> "relative-K", pressure_mode |-> "relative", pressure_unit |-> "none", temperature_unit |-> "K"],
+   [name |-> "relative%-K", pressure_mode |-> "relative%", pressure_unit |-> "none", temperature_unit |-> "K"],
+   [name |-> "bar-K", pressure_mode |-> "absolute", pressure_unit |-> "bar", temperature_unit |-> "K"],
+   [name |-> "relative%-C", pressure_mode |-> "relative%", pressure_unit |-> "none", temperature_unit |-> "°C"],
+   [name |-> "kPa-C", pressure_mode |-> "absolute", pressure_unit |-> "kPa", temperature_unit |-> "°C"],
+   [name |-> "torr-K", pressure_mode |-> "absolute", pressure_unit |-> "torr", temperature_unit |-> "K"],
+   [name |-> "relative-C", pressure_mode |-> "relative", pressure_unit |-> "none", temperature_unit |-> "°C"] >>
 HistConfigs == <<[ads |-> "N2", T |-> DL(7735, -2)], [ads |-> "N2", T |-> DL(873, -1)], [ads |-> "Ar", T |-> DL(873, -1)]>>
 Histories == [1..3 -> 1..Len(HistConfigs)]
 
